@@ -5,6 +5,6 @@ CONSTANTS
   DepthLimit = 100
   PreBody <- ThePreBody
   LogEvents = FALSE
-  Tier = "quick"
+  Tier = "demo"
 INVARIANT DemoUnbounded
 CHECK_DEADLOCK FALSE
